@@ -138,6 +138,17 @@ CHECKS.update({
          "the same description, equivalent files yield equal machines. SCR files load to 0x4000..0x5AFF (display decode is C08)."),
    note="Trusted: TLC, the harness' writers (SZX layout from the format description), miniz_oxide for zlib. Sampling over descriptions."),
 })
+CHECKS.update({
+ "C20": dict(
+   category="model_checking", design_ref="4 (C20)", technique="TLC exhaustive chunking model + TLC validation of per-call event logs of the real player",
+   text=("Vtx.tla defines the canonical event log of a track (frame k's writes, R13=0xFF skipped, immediately before sample k*spf; frames*spf samples) "
+         "and the implementation-shaped play() loop. MC_Vtx explores every sequence of play() calls with buffer lengths 0..5, mono and stereo, spf 1..3: "
+         "the concatenated events are always a prefix of the canonical log and the end is reported exactly when all of it was produced. The real "
+         "Player runs over a recording AY backend with random logs, rates, player frequencies and buffer lengths; VtxTrace checks every call's "
+         "writes/samples/return value/buffer contents. The real AymPrecise backend must give bit-identical streams under three chunkings, and the "
+         "four repository files must decode to the transposition of their LH5 payload."),
+   note="Trusted: TLC, delharc for decompressing the reference payload. Decode half limited to the four repository files (no LH5 encoder)."),
+})
 NOT_YET = {}
 
 HOOK_COMMITS = ["71990aa"]
